@@ -425,8 +425,10 @@ class MaskSplitter(DirectModule):
 
         input_mask, target_mask = zip(
             *[
-                self._unsqueeze_mask(
-                    self.split_method(
+                [
+                    # Give the split masks the shape of the sampling mask (2D: (1, H, W, 1), 3D: (1, 1, H, W, 1)).
+                    mask.reshape(sampling_mask[_].shape)
+                    for mask in self.split_method(
                         sampling_mask[_],
                         acs_mask[_] if self.keep_acs else None,
                         (
@@ -435,7 +437,7 @@ class MaskSplitter(DirectModule):
                             else tuple(map(ord, str(sample["filename"][_]) + str(sample["slice_no"][_])))
                         ),
                     )
-                )
+                ]
                 for _ in range(kspace.shape[0])
             ]
         )
